@@ -51,20 +51,20 @@ def run(res, replay=None):
                 g = vj["faces"].get(back) if vj and vj["faces_mapped"] else None
                 pctx = dict(ctx, i=i, j=j, shift=s)
                 if g is None:
-                    res.violation("C03:not-reciprocal-missing", f"cell {i} has a face of area {f['area']:.6g} towards {j} with shift {s}, cell {j} has none towards {i} with shift {back[2]}", pctx)
+                    res.violation("C03:not-reciprocal-missing" + geo.mismatch_class(rec), f"cell {i} has a face of area {f['area']:.6g} towards {j} with shift {s}, cell {j} has none towards {i} with shift {back[2]}", pctx)
                     continue
                 if abs(f["area"] - g["area"]) > tol["area_tol"]:
-                    res.violation("C03:not-reciprocal-area", f"face {i}->{j} shift {s}: area {f['area']} vs {g['area']} seen from {j}", pctx)
+                    res.violation("C03:not-reciprocal-area" + geo.mismatch_class(rec), f"face {i}->{j} shift {s}: area {f['area']} vs {g['area']} seen from {j}", pctx)
                     continue
                 if f["area"] > 1e3 * thr:
                     for k in range(dim):
                         if abs(f["centroid"][k] - (g["centroid"][k] + s[k] * w[k])) > ptol * max(1.0, 1e-3 * tol["face_scale"] / f["area"]):
-                            res.violation("C03:not-reciprocal-centroid", f"face {i}->{j} shift {s}: centroid {f['centroid']} vs {g['centroid']} (+shift) seen from {j}", pctx)
+                            res.violation("C03:not-reciprocal-centroid" + geo.mismatch_class(rec), f"face {i}->{j} shift {s}: centroid {f['centroid']} vs {g['centroid']} (+shift) seen from {j}", pctx)
                             break
                 ni = vi["planes"][f["plane"]]["n"]
                 nj = vj["planes"][g["plane"]]["n"]
                 if any(abs(ni[k] + nj[k]) > 1e-9 + 10 * tol["rel"] for k in range(3)):
-                    res.violation("C03:not-reciprocal-normal", f"face {i}->{j} shift {s}: normals {ni} and {nj} are not opposite", pctx)
+                    res.violation("C03:not-reciprocal-normal" + geo.mismatch_class(rec), f"face {i}->{j} shift {s}: normals {ni} and {nj} are not opposite", pctx)
         # compact storage
         vor = T.decode_vor(o["vor"])
         seen = {}
@@ -75,17 +75,17 @@ def run(res, replay=None):
             seen.setdefault((f["left"], f["right"], s), []).append(idx)
         for (l, r, s), idxs in seen.items():
             if len(idxs) != 1:
-                res.violation("C03:stored-twice", f"face ({l}, {r}, shift {s}) is stored {len(idxs)} times", dict(ctx, face=[l, r, s]))
+                res.violation("C03:stored-twice" + geo.mismatch_class(rec), f"face ({l}, {r}, shift {s}) is stored {len(idxs)} times", dict(ctx, face=[l, r, s]))
             f = vor["faces"][idxs[0]]
             if s is None and active[l] and active[r]:
                 if (r, l, None) in seen:
-                    res.violation("C03:stored-twice", f"unshifted face between constructed cells {l} and {r} is stored from both sides", dict(ctx, face=[l, r]))
+                    res.violation("C03:stored-twice" + geo.mismatch_class(rec), f"unshifted face between constructed cells {l} and {r} is stored from both sides", dict(ctx, face=[l, r]))
                 for c in (l, r):
                     if idxs[0] not in vor["cells"][c]["face_indices"]:
-                        res.violation("C03:not-listed-by-both", f"unshifted face {idxs[0]} between {l} and {r} is not listed by cell {c}", dict(ctx, face=idxs[0]))
+                        res.violation("C03:not-listed-by-both" + geo.mismatch_class(rec), f"unshifted face {idxs[0]} between {l} and {r} is not listed by cell {c}", dict(ctx, face=idxs[0]))
             if s is not None and active[r] and f["area"] > thr:
                 if (r, l, tuple(-x for x in s)) not in seen:
-                    res.violation("C03:periodic-pair-missing", f"periodic face ({l}, {r}, {s}) of area {f['area']:.6g} has no reciprocal partner ({r}, {l}, {tuple(-x for x in s)})", dict(ctx, face=[l, r, s]))
+                    res.violation("C03:periodic-pair-missing" + geo.mismatch_class(rec), f"periodic face ({l}, {r}, {s}) of area {f['area']:.6g} has no reciprocal partner ({r}, {l}, {tuple(-x for x in s)})", dict(ctx, face=[l, r, s]))
         # unshifted faces of non-negligible area between constructed cells must be stored
         for i, vi in views.items():
             if vi is None or not vi["faces_mapped"]:
@@ -94,7 +94,7 @@ def run(res, replay=None):
                 if key[0] == "ngb" and key[2] == (0, 0, 0) and vi["planes"][f["plane"]]["shift"] is None and f["area"] > thr and active[key[1]]:
                     j = key[1]
                     if (i, j, None) not in seen and (j, i, None) not in seen:
-                        res.violation("C03:not-stored", f"face between constructed cells {i} and {j} (area {f['area']:.6g}) is absent from the face list", dict(ctx, i=i, j=j))
+                        res.violation("C03:not-stored" + geo.mismatch_class(rec), f"face between constructed cells {i} and {j} (area {f['area']:.6g}) is absent from the face list", dict(ctx, i=i, j=j))
         # antisymmetric flux over all cells
         if all(active):
             u = (0.2672612419124244, 0.5345224838248488, 0.8017837257372732)
@@ -110,6 +110,6 @@ def run(res, replay=None):
                     tot += phi
                     scale += abs(phi)
             if abs(tot) > 100 * tol["area_tol"] + 1e-11 * scale:
-                res.violation("C03:flux-not-cancelling", f"antisymmetric flux summed over all cells = {tot} (sum of magnitudes {scale})", ctx)
+                res.violation("C03:flux-not-cancelling" + geo.mismatch_class(rec), f"antisymmetric flux summed over all cells = {tot} (sum of magnitudes {scale})", ctx)
         if k_in < 1:
             res.sample({"input": T.inp_json(inp), "stored_faces": len(vor["faces"])})
